@@ -472,7 +472,9 @@ function runDigestSequence(ops) {
     chunks.push(Buffer.from(data));
     return orig.call(this, data);
   };
+  const incomplete = [];
   for (const op of ops) {
+    const before = chunks.length;
     switch (op.o) {
       case "tag": w.updateTag(op.v); break;
       case "str": w.updateString(op.v); break;
@@ -481,11 +483,17 @@ function runDigestSequence(ops) {
       case "null": w.updateNull(); break;
       default: throw new Error("bad digest op");
     }
+    // an encoding that is to be canonical must carry every byte of the text it is given: the bytes fed to the hash
+    // during this write contain the UTF-8 form of the string
+    if (op.o === "str" || op.o === "tag") {
+      const fed = Buffer.concat(chunks.slice(before));
+      if (fed.indexOf(Buffer.from(op.v, "utf8")) < 0) incomplete.push({ op: op.o, utf8_bytes: Buffer.byteLength(op.v, "utf8"), fed_bytes: fed.length });
+    }
   }
   const got = w.digestHex();
   const all = Buffer.concat(chunks);
   const want = crypto.createHash("sha256").update(all).digest("hex");
-  return { got, want, bytes: all.length };
+  return { got, want, bytes: all.length, incomplete };
 }
 
 // ---- queries ----
